@@ -148,6 +148,22 @@ func (m *tkMod) op(e *lib.Env, st Step) (string, lib.Outcome) {
 		out := e.Deliver(&tokenv1.MsgMintToken{Coin: sdk.NewCoin("u"+sym, sdkmath.NewIntFromBigInt(bi(st.N[0]))), Owner: a0.String()})
 		return term, out
 	}
+	// not modelled (TkOther): only the abort clause applies; on the most recently issued symbol slot
+	sym := tkSymbol(m.n[e], 0)
+	for extra := 0; extra < 8; extra++ {
+		if k.HasSymbol(e.Ctx, tkSymbol(m.n[e], extra)) {
+			sym = tkSymbol(m.n[e], extra)
+			break
+		}
+	}
+	switch st.K {
+	case "edit":
+		return "TkOther", e.Deliver(&tokenv1.MsgEditToken{Symbol: sym, Name: "renamed", MaxSupply: bi(st.N[0]).Uint64(), Mintable: "true", Owner: a0.String()})
+	case "burn":
+		return "TkOther", e.Deliver(&tokenv1.MsgBurnToken{Coin: sdk.NewCoin("u"+sym, sdkmath.NewIntFromBigInt(bi(st.N[0]))), Sender: a0.String()})
+	case "transfer_owner":
+		return "TkOther", e.Deliver(&tokenv1.MsgTransferTokenOwner{SrcOwner: a0.String(), DstOwner: e.Actors[1].String(), Symbol: sym})
+	}
 	panic("token: unknown op " + st.K)
 }
 
@@ -201,7 +217,16 @@ func genTK(r *lib.Rand, h *History, i int) {
 	n := 3 + r.Intn(4)
 	h.Steps = append(h.Steps, Step{"issue", []string{fmt.Sprint(r.Intn(6))}})
 	for i := 0; i < n; i++ {
-		if r.Chance(1, 2) {
+		if r.Chance(1, 5) {
+			switch r.Intn(3) {
+			case 0:
+				h.Steps = append(h.Steps, Step{"edit", []string{big.NewInt(r.Range(1000, 2000000000)).String()}})
+			case 1:
+				h.Steps = append(h.Steps, Step{"burn", []string{big.NewInt(r.Range(1, 1000)).String()}})
+			case 2:
+				h.Steps = append(h.Steps, Step{"transfer_owner", nil})
+			}
+		} else if r.Chance(1, 2) {
 			h.Steps = append(h.Steps, Step{"issue", []string{fmt.Sprint(r.Intn(6))}})
 		} else {
 			h.Steps = append(h.Steps, Step{"mint", []string{big.NewInt(r.Range(1, 1000000)).String()}})
